@@ -557,7 +557,7 @@ class Lib:
             if isinstance(obj, CList):
                 obj = self.to_sseq(interp, obj, node)
             n = obj.length
-            if st is None or st == 1:
+            if st is None or (isinstance(st, int) and st == 1):
                 a, b = self.slice_bounds(interp, n, lo, hi, st, node)
                 ln = Ite(compare(">", b, a), arith("-", b, a), 0)
                 k = z3.Int(fresh("sl"))
@@ -570,6 +570,18 @@ class Lib:
                 k = z3.Int(fresh("sl"))
                 arr = z3.Lambda([k], z3.Select(obj.arr, k * st + tz(a)))
                 none = z3.Lambda([k], z3.Select(obj.none, k * st + tz(a))) if obj.none is not None else None
+                return SSeq(ln, arr, obj.kind, obj.ekind, none)
+            if isinstance(st, SInt) and hi is None:
+                # a[lo::st] with a symbolic positive step: k-th element is a[lo + k*st]
+                ctx = interp.ctx
+                if not ctx.implied(tb(compare(">=", st, 1))):
+                    interp.err(node, "slice step not provably positive")
+                a, b = self.slice_bounds(interp, n, lo, hi, None, node)
+                ln = Ite(compare(">", b, a), arith("+", arith("//", arith("-", arith("-", b, a), 1), st), 1), 0)
+                k = z3.Int(fresh("sl"))
+                idx = tz(arith("+", a, arith("*", SInt(k), st)))
+                arr = z3.Lambda([k], z3.Select(obj.arr, idx))
+                none = z3.Lambda([k], z3.Select(obj.none, idx)) if obj.none is not None else None
                 return SSeq(ln, arr, obj.kind, obj.ekind, none)
             if st == -1:
                 # a[lo:hi:-1]
@@ -635,6 +647,8 @@ class Lib:
                     v = Fraction(0) if v is None or v.val is None else v.val
                 elif obj.none is not None:
                     obj.none = z3.Store(obj.none, tz(j), z3.BoolVal(False))
+                if obj.ekind == "opaque":
+                    return      # only the length of such a list is tracked
                 conv = {"int": tz, "real": treal, "bool": tb}[obj.ekind]
                 if obj.ekind == "int" and isinstance(v, (Fraction, SReal)):
                     interp.err(node, "float stored into an int array")
@@ -781,6 +795,10 @@ class Lib:
             return a + b
         if isinstance(a, str) and op == "%":
             return SOpaque("str")
+        if op == "*" and ((isinstance(a, str) and isinstance(b, SInt)) or (isinstance(a, SOpaque) and a.tag == "fmt")):
+            return self.binop_ext(interp, op, a, b, node)
+        if op == "*" and isinstance(a, str) and isinstance(b, int):
+            return a * b
         if isinstance(a, (str, SOpaque)) and isinstance(b, (str, SOpaque)) and op == "+":
             return SOpaque("str")
         if op == "@":
@@ -2024,3 +2042,109 @@ for _nm in ("sqrt", "exp", "log", "sin", "cos", "tan", "sinh", "cosh", "tanh", "
             "arcsinh", "arccosh", "arctanh", "abs", "log10"):
     for _pref in ("np", "anp"):
         setattr(Lib, "f_%s__%s" % (_pref, _nm), (lambda nm: (lambda self, interp, args, kwargs, node: self._unary_real(nm)(interp, args, kwargs, node)))(_nm))
+
+
+# ------------------------------------------------------------------------------------------------------------------
+# binary files and struct (assumed models):
+#   file = (length L, position pos); read(n) returns min(n, L - pos) bytes and advances pos by that amount
+#   struct.unpack(fmt, buf) raises struct.error unless len(buf) == calcsize(fmt); native sizes i = 4, d = 8
+#   the *content* of the bytes is not modelled here (only the record accounting of C18)
+
+def mk_file(L, pos):
+    return SObj("file", {"L": L, "pos": pos})
+
+
+def _file_read(lib, interp, obj, args, kwargs, node):
+    n = args[0]
+    L, pos = obj.attrs["L"], obj.attrs["pos"]
+    rest = arith("-", L, pos)
+    if isinstance(n, int) and n < 0:
+        interp.err(node, "read() with negative size")
+    got = Ite(compare("<=", n, rest), n, rest)
+    if not isinstance(n, int):
+        got = Ite(compare("<", n, 0), rest, got)
+    saved = obj.frozen
+    obj.attrs["pos"] = arith("+", pos, got)
+    return SOpaque("bytes", got)
+
+
+def _fmt_size(fmt, interp, node):
+    import struct as _st
+    if isinstance(fmt, str):
+        try:
+            return _st.calcsize(fmt)
+        except _st.error:
+            interp.err(node, "struct format %r" % fmt)
+    if isinstance(fmt, SOpaque) and fmt.tag == "fmt":
+        unit, count = fmt.payload
+        return arith("*", _st.calcsize(unit), count)
+    interp.err(node, "struct format %r" % (fmt,))
+
+
+def _struct_unpack(self, interp, args, kwargs, node):
+    fmt, buf = args
+    if not (isinstance(buf, SOpaque) and buf.tag == "bytes"):
+        interp.err(node, "struct.unpack of %r" % (buf,))
+    size = _fmt_size(fmt, interp, node)
+    ok = compare("==", buf.payload, size)
+    if ok is not True:
+        if ok is False or not interp.ctx.branch(tb(ok)):
+            raise PyRaise("struct.error", "unpack requires a buffer of %s bytes" % (size,), node)
+    return SOpaque("unpacked", fmt)
+
+
+def _unpacked_getitem(lib, interp, obj, idx, node):
+    fmt = obj.payload
+    unit = fmt if isinstance(fmt, str) else fmt.payload[0]
+    unit = unit.lstrip("<>=!@")
+    if "d" in unit and "i" not in unit:
+        return SReal(z3.Real(fresh("field")))
+    if "i" in unit and "d" not in unit:
+        return SInt(z3.Int(fresh("field")))
+    interp.err(node, "field of a mixed struct format")
+
+
+Lib.f_struct__unpack = _struct_unpack
+_old_getitem_ext = Lib.getitem_ext
+
+
+def _getitem_ext2(self, interp, obj, idx, node):
+    if isinstance(obj, SOpaque) and obj.tag == "unpacked" and isinstance(idx, (int, SInt)):
+        return _unpacked_getitem(self, interp, obj, idx, node)
+    return _old_getitem_ext(self, interp, obj, idx, node)
+
+
+Lib.getitem_ext = _getitem_ext2
+_old_truth_ext = Lib.truth_ext
+
+
+def _truth_ext2(self, interp, v, node):
+    if isinstance(v, SOpaque) and v.tag == "bytes":
+        return compare(">", v.payload, 0)
+    if isinstance(v, SOpaque) and v.tag in ("unpacked", "elem", "str"):
+        return True
+    return _old_truth_ext(self, interp, v, node)
+
+
+Lib.truth_ext = _truth_ext2
+_old_init = Lib.__init__
+
+
+def _init2(self):
+    _old_init(self)
+    self.obj_models["file"] = {"read": lambda interp, obj, args, kwargs, node: _file_read(self, interp, obj, args, kwargs, node)}
+
+
+Lib.__init__ = _init2
+_old_binop_ext = Lib.binop_ext
+
+
+def _binop_ext2(self, interp, op, a, b, node):
+    if op == "*" and isinstance(a, str) and len(a) == 1 and isinstance(b, (int, SInt)) and not isinstance(b, bool):
+        return SOpaque("fmt", (a, b))
+    if op == "*" and isinstance(a, SOpaque) and a.tag == "fmt" and isinstance(b, (int, SInt)):
+        return SOpaque("fmt", (a.payload[0], arith("*", a.payload[1], b)))
+    return _old_binop_ext(self, interp, op, a, b, node)
+
+
+Lib.binop_ext = _binop_ext2
